@@ -170,6 +170,43 @@ def h15_redis_same_id(S):
     S.check("fifo-not-overtaken", got == want, info=f"enqueued {want}, delivered {got}")
 
 
+def h15_redis_poller(S):
+    """Redis consumer as the worker uses it (background prefetch + consume()): what it hands out is in enqueue order."""
+    from fakes import redis as fr
+    from repid.data._key import RoutingKey
+    import repid.data._parameters as P
+
+    n = 5
+    phase = S.real("first_consume_after_s", 0, Fraction(12, 1000))
+    pause_after = S.pick("pause_and_unpause_after_this_many_deliveries", 3)      # 0 = never
+    buffer_size = [None, 2][S.pick("bounded_buffer", 2)]
+    got = []
+
+    async def main(loop):
+        srv = fr.FakeServer()
+        srv.latency = lambda client: Fraction(1, 1000)
+        br = fr.mk_broker(srv)
+        for i in range(n):
+            await br.enqueue(RoutingKey(topic="job", queue="default", id_=f"m{i}"), "p", P.Parameters(timestamp=P.datetime.now()))
+        cons = br.get_consumer("default", ["job"], buffer_size)
+        cons.POLLING_WAIT = Fraction(1, 1000)
+        await cons.start()
+        await asyncio.sleep(phase)
+        for k in range(n):
+            if pause_after and k == pause_after:
+                await asyncio.sleep(Fraction(1, 50))        # the prefetch has filled the buffer meanwhile
+                await cons.pause()
+                await asyncio.sleep(Fraction(1, 100))
+                await cons.unpause()
+            m = await asyncio.wait_for(cons.consume(), timeout=5)
+            got.append(m[0].id_)
+        await cons.finish()
+
+    run_async(main)
+    S.cover("poller-order")
+    S.check("fifo-not-overtaken", got == [f"m{i}" for i in range(n)], info=f"delivered {got}")
+
+
 def _mk(backend, **kw):
     def scen(S, **p):
         return h15(S, backend=backend, **{**kw, **p})
@@ -202,6 +239,11 @@ HARNESSES = [
             params={"quick": {"backlog": 12, "steps": 2}, "thorough": {"backlog": 13, "steps": 3}},
             bounds={"fetch window": "the real PREFETCH_AMOUNT (10)", "initial backlog": "12 / 13 own messages", "then": "2 / 3 operations, then drain"},
             covers=["consumed", "drained"]),
+    Harness(name="H15-redis-poller", scenario=h15_redis_poller, workers=8,
+            bounds={"backlog": "5 messages, 1 ms round trips", "first consume()": "any real time in [0, 12 ms] after start()", "buffer": "unbounded or 2",
+                    "pause/unpause": "never, or after 1 or 2 deliveries"},
+            functions=["connections/redis/consumer.py:_RedisConsumer.consume", "connections/redis/consumer.py:_RedisConsumer.backgroud_consume",
+                       "connections/redis/consumer.py:_RedisConsumer.pause"], covers=["poller-order"], stubs=["fake Redis server with 1 ms latency"]),
     Harness(name="H15-redis-same-id", scenario=h15_redis_same_id,
             bounds={"sequence": "X, 1-2 others, X again, 0-1 others; consumed without acknowledging in between"},
             functions=["connections/redis/consumer.py:_RedisConsumer.__get_message_name"], covers=["same-id-twice"], stubs=["fake Redis server"]),
